@@ -1,6 +1,7 @@
 package main
 
 import (
+	"go/types"
 	"fmt"
 	"go/token"
 	"strings"
@@ -342,23 +343,42 @@ func (c *Ctx) cursorFreshness() {
 			}
 			okv = fresh && vals2leaves(m["cell"]) == "p.root"
 		}
+		// and what is returned is that new cursor, not one kept in the prover
+		for _, r := range returnsOf(f) {
+			if al, ok := retVal(r, 0).(*ssa.Alloc); !ok || !strings.HasSuffix(al.Type().String(), "boc.Cursor") {
+				okv = false
+			}
+		}
+		// the prover keeps no state between walks: its fields are written only by the constructor
+		for _, g := range c.moduleFuncs("boc") {
+			if g.Name() == "NewMerkleProver" {
+				continue
+			}
+			allInstrs(g, func(_ *ssa.BasicBlock, in ssa.Instruction) {
+				if st, ok := in.(*ssa.Store); ok {
+					if tn, _, ok := fieldOf(st.Addr); ok && tn == "boc.MerkleProver" {
+						okv = false
+					}
+				}
+			})
+		}
 		c.check(okv, R, "Cursor() starts at the root with a freshly made pruning set", f.Pos(), "Cursor{cell: p.root, pruned: make(map)}", "MerkleProver.Cursor no longer gives every walk its own pruning set (or does not start at the root): marks of an earlier proof prune cells of a later one")
 	}
 	if f := c.mustFn(R, "boc", "Cursor.Ref"); f != nil {
 		okv := false
 		for _, m := range literalFields(f, "Cursor") {
-			okv = vals2leaves(m["pruned"]) == "c.pruned" && strings.HasPrefix(vals2leaves(m["cell"]), "c.cell") && strings.Contains(vals2leaves(m["cell"]), "ref")
+			okv = vals2leaves(m["pruned"]) == "c.pruned" && strings.HasPrefix(vals2leaves(m["cell"]), "c.cell") && strings.Contains(vals2leaves(m["cell"]), "ref") && vals2leaves(m["path"]) == "c.path,ref"
 		}
-		c.check(okv, R, "Ref(i) keeps the walk's pruning set and moves to child i", f.Pos(), "Cursor{cell: c.cell.refs[ref], pruned: c.pruned}", "Cursor.Ref no longer shares the walk's pruning set / moves to the requested child")
+		c.check(okv, R, "Ref(i) keeps the walk's pruning set and moves to child i, extending its position by i", f.Pos(), "Cursor{cell: c.cell.refs[ref], path: c.path+i, pruned: c.pruned}", "Cursor.Ref no longer shares the walk's pruning set / moves to the requested child / extends the position with the reference index")
 	}
 	if f := c.mustFn(R, "boc", "Cursor.Prune"); f != nil {
 		okv := false
 		allInstrs(f, func(_ *ssa.BasicBlock, in ssa.Instruction) {
 			if mu, ok := in.(*ssa.MapUpdate); ok {
-				okv = strings.Join(leaves(mu.Map), ",") == "c.pruned" && strings.Join(leaves(mu.Key), ",") == "c.cell"
+				okv = strings.Join(leaves(mu.Map), ",") == "c.pruned" && strings.Join(leaves(mu.Key), ",") == "c.path"
 			}
 		})
-		c.check(okv, R, "Prune() marks the cursor's own cell in the walk's set", f.Pos(), "c.pruned[c.cell] = {}", "Cursor.Prune no longer marks the cursor's current cell in its pruning set")
+		c.check(okv, R, "Prune() marks the cursor's own position in the walk's set", f.Pos(), "c.pruned[c.path] = {}", "Cursor.Prune no longer marks the cursor's current position in its pruning set")
 	}
 	if f := c.mustFn(R, "boc", "MerkleProver.CreateProof"); f != nil {
 		okv := false
@@ -367,5 +387,48 @@ func (c *Ctx) cursorFreshness() {
 		}
 		c.check(okv, R, "CreateProof prunes the prover's root with the given cursor's set", f.Pos(), "p.root.pruneCells(cursor.pruned)", "CreateProof no longer prunes the prover's root with the pruning set of the cursor it was given")
 	}
-	c.floor(R, 4)
+	// what is pruned is a POSITION: cells are shared between positions (the parser creates one object per
+	// distinct cell), so a set keyed by the cell itself prunes every occurrence - including the branch that
+	// holds the proven key when a fork has two identical branches
+	if n := c.lookupType("boc.Cursor"); n != nil {
+		okv := false
+		desc := "?"
+		if st, ok := n.Underlying().(*types.Struct); ok {
+			for i := 0; i < st.NumFields(); i++ {
+				if st.Field(i).Name() == "pruned" {
+					if mt, ok := st.Field(i).Type().Underlying().(*types.Map); ok {
+						desc = mt.Key().String()
+						_, isPtr := mt.Key().Underlying().(*types.Pointer)
+						okv = !isPtr
+					}
+				}
+			}
+		}
+		c.check(okv, R, "the pruning set is keyed by position, not by cell identity", n.Obj().Pos(), "key type "+desc, "Cursor.pruned is keyed by "+desc+": a cell that occurs at several positions (identical subtrees are one object after deserialization) is pruned everywhere, e.g. Hashmap{0x00:7, 0x80:7} parsed from a BoC yields proofs that reveal no entry")
+	} else {
+		c.bad(R, "the pruning set is keyed by position, not by cell identity", 0, "type boc.Cursor not found")
+	}
+	if f := c.mustFn(R, "boc", "immutableCell.pruneCells"); f != nil {
+		okv := false
+		n := 0
+		allInstrs(f, func(_ *ssa.BasicBlock, in ssa.Instruction) {
+			if cl, ok := in.(*ssa.Call); ok {
+				if sc := cl.Call.StaticCallee(); sc != nil && origin(sc) == origin(f) {
+					n++
+					if len(cl.Call.Args) > 2 {
+						ls := strings.Join(leaves(cl.Call.Args[2]), ",")
+						okv = strings.Contains(ls, "path") && inLoop(cl.Block())
+					}
+				}
+			}
+		})
+		look := false
+		allInstrs(f, func(_ *ssa.BasicBlock, in ssa.Instruction) {
+			if lk, ok := in.(*ssa.Lookup); ok && strings.Join(leaves(lk.Index), ",") == "path" && strings.Join(leaves(lk.X), ",") == "pruned" {
+				look = true
+			}
+		})
+		c.check(okv && n == 1 && look, R, "pruneCells tests its own position and hands each child its own position", f.Pos(), "pruned[path]; child i gets path+i", "pruneCells no longer decides by the position it was given / no longer extends the position per reference")
+	}
+	c.floor(R, 6)
 }
